@@ -160,3 +160,52 @@ theorem runDirect_box_irrelevant (T T' : Rect) (calls : List Call) (q : Pt) (hT 
     (by intro x y; rfl) rfl q q (by intro c _; exact Call.sem_box_irrelevant T T' c q hT hT' h)
 
 end EG
+
+namespace EG
+open Tgt
+
+/-! ### Nestings of nestings -/
+
+theorem Pt.zero_add' (a : Pt) : Pt.zero + a = a := by rw [Pt.ext_iff']; simp [Pt.zero]
+theorem Pt.add_assoc' (a b c : Pt) : a + b + c = a + (b + c) := by
+  rw [Pt.ext_iff']; simp only [Pt.add_x, Pt.add_y]; omega
+
+theorem Xf.ext' {x y : Xf} (hG : ∀ q, x.G q = y.G q) (hd : x.d = y.d) (hf : ∀ c, x.f c = y.f c) : x = y := by
+  cases x; cases y
+  simp only at hG hd hf
+  simp only [Xf.mk.injEq]
+  exact ⟨funext hG, hd, funext hf⟩
+
+theorem Xf.id_comp (x : Xf) : Xf.id.comp x = x := by
+  apply Xf.ext'
+  · intro q; simp [Xf.comp, Xf.id, Pt.sub_zero]
+  · simp [Xf.comp, Xf.id, Pt.zero_add']
+  · intro c; rfl
+
+theorem Xf.comp_assoc (a b c : Xf) : (a.comp b).comp c = a.comp (b.comp c) := by
+  apply Xf.ext'
+  · intro q; simp only [Xf.comp, Pt.sub_add, Bool.and_assoc]
+  · simp only [Xf.comp, Pt.add_assoc']
+  · intro col; rfl
+
+theorem stackBox_append (B : Rect) (s1 s2 : Stack) :
+    stackBox B (s1 ++ s2) = stackBox (stackBox B s1) s2 := by
+  induction s1 generalizing B with
+  | nil => rfl
+  | cons a rest ih => simp only [List.cons_append, stackBox]; exact ih (a.bbox B)
+
+theorem lowerStack_append (B : Rect) (s1 s2 : Stack) (c : Call) :
+    lowerStack B (s1 ++ s2) c = lowerStack B s1 (lowerStack (stackBox B s1) s2 c) := by
+  induction s1 generalizing B with
+  | nil => rfl
+  | cons a rest ih => simp only [List.cons_append, lowerStack, stackBox]; rw [ih (a.bbox B)]
+
+theorem stackXf_append (B : Rect) (s1 s2 : Stack) :
+    stackXf B (s1 ++ s2) = (stackXf B s1).comp (stackXf (stackBox B s1) s2) := by
+  induction s1 generalizing B with
+  | nil => simp only [List.nil_append, stackXf, stackBox, Xf.id_comp]
+  | cons a rest ih =>
+    simp only [List.cons_append, stackXf, stackBox]
+    rw [ih (a.bbox B), Xf.comp_assoc]
+
+end EG
